@@ -632,6 +632,12 @@ struct Runner {
             } else if (op == "ctor_value" || op == "assign_value") {
                 why = op + ":" + xt;
                 with_type(xt, [&](auto tt) { value_op<typename decltype(tt)::type>(op == "ctor_value", v, xv, xm, ok); });
+            } else if (op == "assign_self") {
+                // the source is a reference to the optional's own contained value
+                if constexpr (requires { v = *v; }) {
+                    Guard g(*this);
+                    v = *v;
+                } else { ok = false; }
             } else if (op == "ctor_inplace") {
                 Guard g(*this);
                 v.~V();
@@ -853,6 +859,17 @@ struct Runner {
                 if constexpr (K::all_unique || VP_VARIANT_REPEAT_CONV) {
                     with_type(xt, [&](auto tt) { value_op<typename decltype(tt)::type>(op == "ctor_value", v, xv, xm, ok); });
                 } else { ok = false; }
+            } else if (op == "assign_self") {
+                // the source is a reference to the variant's own currently held alternative
+                if constexpr (K::all_unique || VP_VARIANT_REPEAT_CONV) {
+                    with_index<N>(v.index(), [&](auto Ic) {
+                        constexpr size_t I = decltype(Ic)::value;
+                        if constexpr (requires { v = uget<I>(v); }) {
+                            Guard g(*this);
+                            v = uget<I>(v);
+                        } else { ok = false; }
+                    });
+                } else { ok = false; }
             } else if (op == "ctor_inplace" || op == "ctor_inplace_t" || op == "emplace" || op == "emplace_t") {
                 with_index<N>((size_t)xi, [&](auto Ic) {
                     constexpr size_t I = decltype(Ic)::value;
@@ -907,6 +924,11 @@ struct Runner {
             } else if (op == "ctor_value" || op == "assign_value") {
                 why = op + ":" + xt;
                 with_type(xt, [&](auto tt) { value_op<typename decltype(tt)::type>(op == "ctor_value", v, xv, xm, ok); });
+            } else if (op == "assign_self") {
+                if constexpr (requires { v = *v; }) {
+                    Guard g(*this);
+                    v = *v;
+                } else { ok = false; }
             } else if (op == "ctor_unexpected" || op == "assign_unexpected") {
                 why = op + ":" + xt;
                 with_type(xt, [&](auto tt) {
